@@ -403,7 +403,7 @@ def parse_fn_block(lines, qual, opts, lineno, template):
 # --------------------------------------------------------------------------- generator
 
 class Gen:
-    def __init__(self, repo, body_modules=None, fatal_mode="P", twin=False, only_fns=None):
+    def __init__(self, repo, body_modules=None, fatal_mode="P", twin=False, only_fns=None, cone_modules=None, prop=None):
         self.repo = repo
         self.body_modules = body_modules   # None = all
         self.fatal_mode = fatal_mode
@@ -418,6 +418,8 @@ class Gen:
         self.cur_module = None
         self.cur_source = None
         self.only_fns = only_fns
+        self.cone_modules = cone_modules or []
+        self.prop = prop
 
     # ---- source access
     def source(self, rel):
@@ -676,6 +678,8 @@ class Gen:
         for (pat, nth, rep, label, word) in fd.sigreplaces:
             sig_text = self.apply_replace(sig_text, pat, nth, rep, fd, label, word)
         contract_only = ("ext" in fd.opts) or (self.body_modules is not None and self.cur_module not in self.body_modules)
+        if contract_only and "ext" not in fd.opts and self.cur_module in self.cone_modules and self.prop in fd.tags:
+            contract_only = False  # cone tagging: a callee whose contract carries this property is verified with its body here too
         if self.only_fns is not None and (self.cur_module + "::" + fd.qual) not in self.only_fns and not contract_only:
             contract_only = True
         if self.twin and not contract_only and "notwin" not in fd.opts and not getattr(fd, "_is_twin", False):
